@@ -96,6 +96,9 @@ type loop struct {
 	conns  map[*conn]struct{}
 }
 
+// Debug, when set, traces reads.
+var Debug func(kind, link string, n, inBefore, inAfter, bufLeft int)
+
 // ReadBufferCap is the per-read cap of the loop buffer (gnet default 64 KiB).
 var ReadBufferCap = 64 * 1024
 
@@ -266,7 +269,11 @@ func (l *loop) read(c *conn) {
 		return
 	}
 	c.buffer = l.buffer[:n]
+	before := len(c.inbound)
 	action := l.e.h.OnTraffic(c)
+	if Debug != nil {
+		Debug("gnet_read", c.sc.Link.ID, n, before, len(c.inbound), len(c.buffer))
+	}
 	if l.handle(c, action) {
 		poison(l.buffer[:n])
 		return
@@ -298,6 +305,9 @@ func (c *conn) total() int { return len(c.inbound) + len(c.buffer) }
 
 func (c *conn) Next(n int) ([]byte, error) {
 	total := c.total()
+	if Debug != nil {
+		Debug("gnet_next", c.sc.Link.ID, n, len(c.inbound), len(c.buffer), total)
+	}
 	if n > total {
 		return nil, io.ErrShortBuffer
 	} else if n <= 0 {
